@@ -11,7 +11,7 @@ CONSTANTS
   NoDefault = {"p1"}
   InitScopeSets = {{}, {"all"}}
   HiddenChoices = {{}}
-  ActScopes = {"all", "p1"}
+  ActScopes = {"p1"}
   RepKinds = {}
   MaxNow = 8
   Depth = 4
